@@ -65,9 +65,10 @@ def fill(msg, rng, uid_len=None):
 class RecordingDul(object):
     """Stands for the DUL provider behind an Association: collects what send() is given."""
 
-    def __init__(self):
+    def __init__(self, max_pdu_length=1 << 20):
         self.sent = []
         self.accepted_contexts = {}
+        self.max_pdu_length = max_pdu_length      # the real provider keeps the LOCAL (receive side) maximum here
 
     def send(self, item):
         if hasattr(item, 'pdu_type'):
